@@ -107,11 +107,11 @@ def run_mutant(job):
         if rc != 0:
             return dict(idx=idx, file=f, line=line_no + 1, desc=desc, src=orig_line.strip(), status="nocompile")
         rc, out = sh(["go", "vet", "./..."], cwd=repo)  # unused variables etc. are compile errors in tests
-        rc, out = sh(["go", "test", "-count=1", "-vet=off", "./..."], cwd=repo, timeout=600)
+        rc, out = sh(["go", "test", "-count=1", "-vet=off", "-timeout", "120s", "./..."], cwd=repo, timeout=200)
         suite = "suite-kills" if rc != 0 else "suite-passes"
         caught_by = None
         for prop in FILE_PROPS[f]:
-            rc, out = sh(["/verif/check", prop, "quick"], cwd="/verif", env=dict(ENV, VERIF_REPO=repo), timeout=1500)
+            rc, out = sh(["/verif/check", prop, "quick"], cwd="/verif", env=dict(ENV, VERIF_REPO=repo, VERIF_WORKER_TIMEOUT="240"), timeout=600)
             if rc == 1 and "VIOLATION property=%s" % prop in out:
                 caught_by = prop
                 break
@@ -127,7 +127,7 @@ def main():
     files = a[a.index("--files") + 1].split(",") if "--files" in a else list(FILE_PROPS)
     limit = int(a[a.index("--limit") + 1]) if "--limit" in a else None
     out = a[a.index("--out") + 1] if "--out" in a else "/verif/.build/automutate.json"
-    only_suite_pass = "--only-suite-pass" in a
+    skip = int(a[a.index("--skip") + 1]) if "--skip" in a else 0
     jobs = []
     for f in files:
         text = open(os.path.join("/repo", f)).read()
@@ -141,6 +141,7 @@ def main():
     if limit:
         step = max(1, len(jobs) // limit)
         jobs = jobs[::step][:limit]
+    jobs = jobs[skip:]
     print("%d mutants" % len(jobs), flush=True)
     results = []
     t0 = time.time()
